@@ -92,6 +92,7 @@ def _check_main(run, P):
     _prefix(run, P)
     _memo(run, P)
     _shared(run, P)
+    _refcount(run, P)
     _no_consumer_cache(run, P)
     _reserved(run, P)
     _storage(run, P)
@@ -496,6 +497,28 @@ def _memo(run, P):
                        "local map gives the same identifier to another name")
 
 
+def _refcount(run, P):
+    from .util import split_by
+    f = P.func("dagrt.codegen.fortran.FortranNameManager.name_refcount")
+    nm = f.params[1]
+
+    def is_isv(t):
+        return t.startswith("is_state_variable(")
+
+    _, wt, wf = split_by(f.node, is_isv, kinds=(ast.Return,))
+    ok_state = bool(wt) and all(any(isinstance(x, ast.Call) and dotted(x.func) == "self.name_global"
+                                    and x.args and dotted(x.args[0]) == nm for x in ast.walk(r_))
+                                for r_ in wt)
+    ok_local = bool(wf) and all(any(isinstance(x, ast.Call) and dotted(x.func) == "self.name_local"
+                                    for x in ast.walk(r_)) for r_ in wf)
+    run.ob("C13.shared", f, wt[0] if wt else f.node, ok_state and ok_local,
+           construct="name_refcount: persistent -> built on self.name_global(<name>), per-step -> "
+                     "through self.name_local(...)",
+           why="the reference count of a variable is named after the variable's *unique* "
+               "identifier: derived from the sanitised name alone, '<p>y^' and '<p>y*' (or "
+               "'<p>K' and '<p>k') share one count component")
+
+
 def _no_consumer_cache(run, P):
     """Classes that hold a name manager do not remember its answers: the answers
     change when the manager's local map is reset."""
@@ -598,10 +621,12 @@ def _reserved(run, P):
     # who decides that a name is the generator's own?
     by_spelling = [n for n in ast.walk(f.node) if isinstance(n, ast.Call)
                    and isinstance(n.func, ast.Attribute) and n.func.attr == "startswith"
-                   and dotted(n.func.value) == f.params[1] and n.args
-                   and (string_value(n.args[0]) or "").startswith("dagrt")]
+                   and any(isinstance(x, ast.Name) and x.id == f.params[1] for x in ast.walk(n.func.value))
+                   and n.args and (string_value(n.args[0]) or "").lower().startswith("dagrt")]
+    how = norm(by_spelling[0]) if by_spelling else ""
     run.ob("C13.reserved", f, by_spelling[0] if by_spelling else f.node, not by_spelling,
-           construct="FortranNameManager.name_local: names spelled dagrt_* are exempt from the user prefix",
+           construct="FortranNameManager.name_local: names spelled dagrt_* are exempt from the user prefix"
+                     + (f" (test: {how})" if how else ""),
            why="the exemption is meant for the generator's own variables but is decided by "
                "the spelling of the name: a user variable called dagrt_ierr, dagrt_state, "
                "dagrt_nan or dagrt_refcnt_<y> maps to exactly the identifier the generator "
